@@ -38,7 +38,6 @@
 #include "upipe-modules/upipe_rate_limit.h"
 #include "upipe-modules/upipe_queue_sink.h"
 #include "upipe-modules/upipe_queue_source.h"
-#include "lib/upipe-modules/upipe_queue.h"     /* private: layout of a request crossing a queue */
 #include "upipe-modules/upipe_dump.h"
 #include "upipe-modules/upipe_multicat_probe.h"
 #include "upipe-modules/upipe_discard_blocking.h"
@@ -1360,6 +1359,7 @@ struct c12_req {
     int late;                   /* callbacks received while NOT registered */
     bool bad_value;
     bool probe_lodged;          /* thrown to the probe of the end-of-chain pipe since the last re-plumbing */
+    bool burst;                 /* went through a burst that overflowed the out-of-band queue: only "no callback after unregister" is judged */
 };
 static struct c12_req C12R[C12_MAXR];
 static struct upipe *c12_pipes[C12_MAXP + 1];
@@ -1375,15 +1375,23 @@ static int c12_qsrc_id;
 static bool c12_has_q;
 static int c12_cb_depth;
 
+/* Requests are recognised by a tag carried in their uref (every proxy and
+ * every request crossing a queue duplicates the uref of its upstream), never
+ * by following pointers: a request that crosses the queue keeps a pointer to
+ * an upstream proxy that may already be gone. */
 static struct c12_req *c12_origin(struct urequest *r)
 {
-    for (int depth = 0; r && depth < 8; depth++) {
-        for (int i = 0; i < C12_MAXR; i++) if (r == &C12R[i].req) return &C12R[i];
-        /* the queue source lodges the request embedded in a upipe_queue_request, whose opaque is the queue source itself */
-        if (c12_qsrc && urequest_get_opaque(r, struct upipe *) == c12_qsrc) r = upipe_queue_request_from_urequest(r)->upstream;
-        else r = urequest_get_opaque(r, struct urequest *);
-    }
-    return NULL;
+    for (int i = 0; i < C12_MAXR; i++) if (r == &C12R[i].req) return &C12R[i];
+    uint64_t tag = 0;
+    if (!r || !r->uref || !ubase_check(uref_attr_get_unsigned(r->uref, &tag, UDICT_TYPE_UNSIGNED, "x.c12req"))) return NULL;
+    return tag >= 1 && tag <= C12_MAXR ? &C12R[tag - 1] : NULL;
+}
+
+static struct uref *c12_tagged_uref(int slot, int type)
+{
+    struct uref *u = (type == UREQUEST_UBUF_MGR || type == UREQUEST_FLOW_FORMAT) ? make_flow_def("block.", 1) : uref_alloc_control(E.uref_mgr);
+    uref_attr_set_unsigned(u, (uint64_t)slot + 1, UDICT_TYPE_UNSIGNED, "x.c12req");
+    return u;
 }
 
 static int c12_provide(struct urequest *req, va_list args)
@@ -1442,7 +1450,7 @@ static void c12_quiescent_check(const char *after)
         struct c12_req *r = &C12R[i];
         if (r->late) { vh_violation("c12:callback-after-unregister", "after %s: the callback of request %d (%s) was invoked although it is not registered", after, i, urequest_type_str(r->type)); }
         if (r->bad_value) { vh_violation("c12:wrong-answer", "after %s: request %d (%s) received a value that is not the one provided", after, i, urequest_type_str(r->type)); }
-        for (int sidx = 0; sidx < 3; sidx++) {
+        for (int sidx = 0; sidx < 3 && !r->burst; sidx++) {
             int n = lab_sink_count_match(c12_sinks[sidx], c12_match, r);
             int want = r->registered && c12_out[end] == sidx ? 1 : 0;
             if (n != want) {
@@ -1502,10 +1510,10 @@ static void c12_case(struct vh_rng *r)
         if (c < 30) {
             int k = vh_below(R, C12_MAXR);
             struct c12_req *q = &C12R[k];
-            if (q->registered) continue;
+            if (q->registered || q->burst) continue;
             static const int types[] = { UREQUEST_UREF_MGR, UREQUEST_UBUF_MGR, UREQUEST_UCLOCK, UREQUEST_FLOW_FORMAT, UREQUEST_SINK_LATENCY };
             q->type = types[vh_below(R, 5)];
-            struct uref *fd = (q->type == UREQUEST_UBUF_MGR || q->type == UREQUEST_FLOW_FORMAT) ? make_flow_def("block.", 1) : NULL;
+            struct uref *fd = c12_tagged_uref(k, q->type);
             urequest_init(&q->req, q->type, fd, c12_provide, NULL);
             q->provided = 0; q->late = 0; q->bad_value = false; q->probe_lodged = false;
             q->registered = true;       /* the callback may run during registration */
@@ -1553,6 +1561,27 @@ static void c12_case(struct vh_rng *r)
                 upipe_set_output(target, o == -2 ? c12_pipes[k + 1] : o == -1 ? NULL : c12_sinks[o]);
             c12_out[k] = o;
             VH_COUNT("c12.replumb");
+        } else if (c < 72 && c12_has_q) {
+            /* a burst of registrations and withdrawals while the loops do not run:
+             * more out-of-band messages than the queue can hold (255) */
+            int k = vh_below(R, C12_MAXR);
+            struct c12_req *q = &C12R[k];
+            if (q->registered || q->burst) continue;
+            q->type = vh_chance(R, 1, 2) ? UREQUEST_SINK_LATENCY : UREQUEST_UCLOCK;
+            urequest_init(&q->req, q->type, c12_tagged_uref(k, q->type), c12_provide, NULL);
+            q->provided = 0; q->late = 0; q->bad_value = false; q->probe_lodged = false;
+            int cycles = 120 + vh_below(R, 60), refused = 0;
+            OP("burst(r%d,%d cycles)", k, cycles);
+            for (int b = 0; b < cycles; b++) {
+                q->registered = true;
+                if (!ubase_check(upipe_register_request(c12_pipes[0], &q->req))) refused++;
+                q->registered = false;
+                if (!ubase_check(upipe_unregister_request(c12_pipes[0], &q->req))) refused++;
+            }
+            urequest_clean(&q->req); q->req.uref = NULL;
+            q->burst = true;
+            VH_COUNT("c12.bursts");
+            if (refused) VH_COUNT("c12.bursts_overflowing_the_oob_queue");
         } else if (c < 85) {
             int sidx = vh_below(R, 3);
             OP("sink%d.provide_all", sidx);
@@ -1586,7 +1615,7 @@ static void c12_case(struct vh_rng *r)
     for (int q = 0; q < C12_MAXR; q++) {
         C12R[q].registered = false;      /* pending requests die with the pipe they were registered on */
         for (int sidx = 0; sidx < 3; sidx++)
-            if (lab_sink_count_match(c12_sinks[sidx], c12_match, &C12R[q]))
+            if (!C12R[q].burst && lab_sink_count_match(c12_sinks[sidx], c12_match, &C12R[q]))
                 vh_violation("c12:still-lodged-after-release", "request r%d is still registered on sink %d after the whole chain was released", q, sidx);
         if (C12R[q].req.uref) { uref_free(C12R[q].req.uref); C12R[q].req.uref = NULL; }
     }
